@@ -1,6 +1,5 @@
 import DoitModel.Proofs.C05Mon
-import DoitModel.Proofs.C05Just
-import DoitModel.Proofs.RunAcct
+import DoitModel.Proofs.C05Complete
 /-! # C05 — failures are contained and never recorded as success
 
 Property theorems only (model: `Model/Run.lean` + `Model/RunFail.lean`; invariants: `Proofs/Run*.lean`,
@@ -160,6 +159,52 @@ theorem C05_monitor_serial_stops (inp : RunInput) (s : Sys) (hr : Reach inp s) :
     monC05SerialStops inp (trace inp s) = true :=
   monC05SerialStops_of_inv (fun hc => reach_invS hc hr)
 
+/-- (c): `monC05ContinueComplete` — the monitor the driver evaluates on every implementation trace — holds on the
+    observable trace of every run of the model that ended normally (`rpc = halted`, no internal error), for every runner,
+    whatever exit code it is given, for every bound `nTasks` that exceeds all task names (`namesBelow`, decidable; the
+    driver's `n`): every member of the closure the monitor computes FROM THE TRACE (`closureOf`: selection, task_dep,
+    calc_dep, what calc_deps with a finish report delivered, setup-tasks of every task whose first-stage dependencies all
+    finished and which is neither ignored nor up-to-date nor in error — a superset of `RunCl`: it also contains the
+    setup-tasks of a task reported `unmet` / ignored in the second `select_task` pass) has exactly one terminal report
+    in the trace, and a task reported `unmet` has a failed task among the direct dependencies the trace determines
+    (`edgesOf`).  The fixed-point iterations of the monitor need no more than `nTasks` rounds (`Proofs/C05Fuel.lean`). -/
+theorem C05_monitor_continue_complete_serial (inp : RunInput) (s : Sys) (hr : Reach inp s) (hend : s.rpc = .halted)
+    (hhalt : s.halt = .none) (nTasks : Nat) (hb : namesBelow inp nTasks = true) (exit : Nat) :
+    monC05ContinueComplete inp nTasks (trace inp s) exit = true := by
+  by_cases hc : inp.continue_ = true
+  · exact monC05ContinueComplete_of_end (allInv_serial hr)
+      (endFacts_serial hr hend hhalt ((reach_invF hr).st hc)) (below_of hb) exit
+  · unfold monC05ContinueComplete; simp [hc]
+
+theorem C05_monitor_continue_complete_parallel (inp : RunInput) (s : Sys) (hr : PReach inp s) (hend : s.rpc = .halted)
+    (hhalt : s.halt = .none) (nTasks : Nat) (hb : namesBelow inp nTasks = true) (exit : Nat) :
+    monC05ContinueComplete inp nTasks (trace inp s) exit = true := by
+  by_cases hc : inp.continue_ = true
+  · exact monC05ContinueComplete_of_end (allInv_parallel hr)
+      (endFacts_parallel hr hend hhalt ((preach_invF hr).st hc)) (below_of hb) exit
+  · unfold monC05ContinueComplete; simp [hc]
+
+/-- the sharper form of `C05_unmet_has_failed_dep` behind the monitor: the failed dependency is one the run has OBSERVED
+    (`DepObs`: task_dep, calc_dep, what calc_deps with a finish report in the event list delivered) or a setup-task -/
+theorem C05_unmet_has_observed_failed_dep (inp : RunInput) (s : Sys) (hr : PReach inp s ∨ Reach inp s) (t : Name)
+    (h : Ev.failure t .unmet ∈ s.events) :
+    ∃ d k, (DepObs inp s.events t d ∨ d ∈ inp.setup t) ∧ Ev.failure d k ∈ s.events := by
+  rcases hr with hr | hr
+  · exact (preach_invU hr).um t h
+  · exact (reach_invU hr).um t h
+
+/-- why a task got a failure or `skip_ignore` report (all runners, every reachable state): all its setup-tasks had been
+    processed (second `select_task` pass), or it is ignored itself / its status is `error`, or one of its observed
+    first-stage dependencies has a failure / `skip_ignore` report, or `select_task` had chosen it for execution -/
+theorem C05_abnormal_report_justified (inp : RunInput) (s : Sys) (hr : PReach inp s ∨ Reach inp s) (u : Name)
+    (h : (∃ k, Ev.failure u k ∈ s.events) ∨ Ev.skipIgn u ∈ s.events) :
+    (∀ d ∈ inp.setup u, (stOf s d).finished = true) ∨ inp.ignored u = true ∨ inp.statusOf u = .error ∨
+    (∃ p, DepObs inp s.events u p ∧ ((∃ k, Ev.failure p k ∈ s.events) ∨ Ev.skipIgn p ∈ s.events)) ∨
+    (∃ deps, Ev.go u deps ∈ s.events) := by
+  rcases hr with hr | hr
+  · exact (preach_invE hr).just u h
+  · exact (reach_invE hr).just u h
+
 /-! ### the pinned behaviour -/
 
 /-- node of a task whose first `select_task` pass said "run, setup-tasks first" and whose setup-task `1` then failed -/
@@ -205,6 +250,19 @@ example : ∃ s, PReach { exFail with runner := .thread, numProc := 2 } s ∧ s.
     s.events.contains (Ev.failure 0 .failed) = true ∧ s.events.contains (Ev.failure 4 .unmet) = true ∧
     s.events.contains (Ev.failure 1 .unmet) = true ∧ s.events.contains (Ev.failure 2 .unmet) = true ∧
     s.events.contains (Ev.success 5) = true :=
+  ⟨_, autoRun_preach (by decide) false true 900 _ PReach.init, by decide +kernel⟩
+
+/-- the hypotheses of the monitor theorem: all names of `exFail` are below 6, and the monitor's closure of the two-thread
+    run is the whole table -/
+example : namesBelow exFail 6 = true := by decide
+
+/-- … and the closure the monitor computes from the trace of the two-thread run is the whole table; it contains the
+    setup-task `1` of task `2`, which `select_task` never chose for execution (no `go 2`: `2` is reported `unmet` in the
+    second pass) — the case in which `closureOf` exceeds `RunCl` -/
+example : ∃ s, PReach { exFail with runner := .thread, numProc := 2 } s ∧ s.rpc = .halted ∧ s.halt = .none ∧
+    (closureOf { exFail with runner := .thread, numProc := 2 } 6
+      (trace { exFail with runner := .thread, numProc := 2 } s)).length = 6 ∧
+    s.events.all (fun e => match e with | .go 2 _ => false | _ => true) = true :=
   ⟨_, autoRun_preach (by decide) false true 900 _ PReach.init, by decide +kernel⟩
 
 /-- without `--continue` the serial run stops after the failure: the independent task `5` is never started -/
